@@ -82,13 +82,18 @@ pub struct RunOut {
     pub error: Option<RunFailed>,
 }
 
+/// The server's initial run after a restart: a quick run on the data already present locally.
+pub fn run_engine_initial(config: &Config, exceptions: &LocalExceptions) -> RunOut { run_engine_with(config, true, exceptions, true) }
+
 /// One validation run with the real engine (collector on or off).
-pub fn run_engine(config: &Config, update: bool, exceptions: &LocalExceptions) -> RunOut {
+pub fn run_engine(config: &Config, update: bool, exceptions: &LocalExceptions) -> RunOut { run_engine_with(config, update, exceptions, false) }
+
+fn run_engine_with(config: &Config, update: bool, exceptions: &LocalExceptions, initial: bool) -> RunOut {
     let mut engine = match Engine::new(config, update) {
         Ok(e) => e, Err(_) => return RunOut { snapshot: None, metrics: None, error: Some(RunFailed::fatal()) }
     };
     if engine.ignite().is_err() { return RunOut { snapshot: None, metrics: None, error: Some(RunFailed::fatal()) } }
-    match ValidationReport::process(&engine, config, false) {
+    match ValidationReport::process(&engine, config, initial) {
         Ok((report, mut metrics)) => {
             let snap = report.into_snapshot(exceptions, &mut metrics);
             RunOut { snapshot: Some(snap), metrics: Some(metrics), error: None }
